@@ -28,6 +28,8 @@ type WaitCase struct {
 	K0      int    `json:"k0,omitempty"`      // batch: first succeeding attempt of item 0 only (0: same as K)
 	Stop    bool   `json:"stop,omitempty"`     // batch: stop-on-error mode
 	Slow1Us int    `json:"slow1_us,omitempty"` // batch: the first attempt of item 1 takes this long (de-phases the items' waits)
+	CtxCause bool  `json:"ctx_cause,omitempty"` // cancelled through context.WithCancelCause with a custom cause (ctx.Err() is still context.Canceled)
+	Route   string `json:"route,omitempty"`    // func / batch kinds: "" all builder methods; "opt-wait" wait through the constructor option, budget through the builder; "opt-all" both through options
 	CtxFar  bool   `json:"ctx_far,omitempty"` // the context also carries a deadline two hours away (explicit cancellation must still interrupt the wait)
 }
 
@@ -126,6 +128,10 @@ func runWaitCase(cs *WaitCase) (*waitObs, []finding) {
 		if cs.CtxFar {
 			c, cf = context.WithTimeout(ctx, 2*time.Hour)
 		}
+		if cs.CtxCause {
+			cc, ccf := context.WithCancelCause(ctx)
+			c, cf = cc, func() { ccf(errors.New("custom cancellation cause")) }
+		}
 		ctx, w.cancel = c, cf
 		defer cf()
 	}
@@ -140,7 +146,14 @@ func runWaitCase(cs *WaitCase) (*waitObs, []finding) {
 			node = &wn
 		}
 	case "func":
-		nb := flyt.NewNode().WithMaxRetries(cs.N).WithWait(wait).
+		nb := flyt.NewNode().WithMaxRetries(cs.N).WithWait(wait)
+		switch cs.Route {
+		case "opt-wait":
+			nb = flyt.NewNode(flyt.WithWait(wait)).WithMaxRetries(cs.N)
+		case "opt-all":
+			nb = flyt.NewNode(flyt.WithWait(wait), flyt.WithMaxRetries(cs.N))
+		}
+		nb = nb.
 			WithPrepFuncAny(func(ctx context.Context, s *flyt.SharedStore) (any, error) { w.prepEnd = time.Now(); return 0, nil }).
 			WithExecFuncAny(func(ctx context.Context, v any) (any, error) { return w.exec(ctx, 0) })
 		if cs.FB {
@@ -155,7 +168,14 @@ func runWaitCase(cs *WaitCase) (*waitObs, []finding) {
 		if cs.Stop {
 			bo = append(bo, flyt.WithBatchErrorHandling(false))
 		}
-		node = flyt.NewBatchNode(bo...).WithMaxRetries(cs.N).WithWait(wait).WithBatchConcurrency(cs.C).
+		bb := flyt.NewBatchNode(bo...).WithMaxRetries(cs.N).WithWait(wait)
+		switch cs.Route {
+		case "opt-wait":
+			bb = flyt.NewBatchNode(append(bo, flyt.WithWait(wait))...).WithMaxRetries(cs.N)
+		case "opt-all":
+			bb = flyt.NewBatchNode(append(bo, flyt.WithWait(wait), flyt.WithMaxRetries(cs.N))...)
+		}
+		node = bb.WithBatchConcurrency(cs.C).
 			WithPrepFunc(func(ctx context.Context, s *flyt.SharedStore) ([]flyt.Result, error) {
 				r := make([]flyt.Result, cs.Items)
 				for i := range r {
@@ -287,7 +307,7 @@ func runC20(c *Cfg) {
 					if !c.Thorough() && w >= 20*time.Millisecond && k > 1 && k < n {
 						continue // quick: for the long waits only the extreme failure sequences
 					}
-					cases = append(cases, &WaitCase{Family: "lower-bound", Kind: kind, WaitNs: int64(w), N: n, K: k, FB: (n+k)%3 == 0})
+					cases = append(cases, &WaitCase{Family: "lower-bound", Kind: kind, WaitNs: int64(w), N: n, K: k, FB: (n+k)%3 == 0, Route: []string{"", "opt-wait", "opt-all"}[(n+k)%3]})
 					if w == 5*time.Millisecond && k > 1 { // attempts that take time before they fail: the wait starts when the attempt ENDS
 						cases = append(cases, &WaitCase{Family: "lower-bound-slow-exec", Kind: kind, WaitNs: int64(w), N: n, K: k, ExecUs: 4000})
 					}
@@ -298,7 +318,7 @@ func runC20(c *Cfg) {
 	for _, cc := range []int{0, 2, 4} {
 		for _, w := range waits[:3] {
 			for n := 2; n <= 3; n++ {
-				cases = append(cases, &WaitCase{Family: "lower-bound-batch", Kind: "batch", WaitNs: int64(w), N: n, K: n, C: cc, Items: 5})
+				cases = append(cases, &WaitCase{Family: "lower-bound-batch", Kind: "batch", WaitNs: int64(w), N: n, K: n, C: cc, Items: 5, Route: []string{"", "opt-wait", "opt-all"}[(n+cc)%3]})
 				cases = append(cases, &WaitCase{Family: "lower-bound-batch", Kind: "batch", WaitNs: int64(w), N: n, K: n + 1, C: cc, Items: 3, FB: cc == 2})
 				if w == 5*time.Millisecond {
 					cases = append(cases, &WaitCase{Family: "lower-bound-slow-exec", Kind: "batch", WaitNs: int64(w), N: n, K: n + 1, C: cc, Items: 3, ExecUs: 4000})
@@ -336,6 +356,7 @@ func runC20(c *Cfg) {
 					cases = append(cases, &WaitCase{Family: "interrupt", Kind: kind, WaitNs: int64(time.Hour), N: n, K: n + 1, Cancel: 1, InCB: in, C: cc, Items: 3})
 					cases = append(cases, &WaitCase{Family: "interrupt", Kind: kind, WaitNs: int64(time.Hour), N: n, K: n + 1, Cancel: 1, InCB: in, C: cc, Items: 3, FB: true, CtxFar: n%2 == 0})
 					cases = append(cases, &WaitCase{Family: "interrupt", Kind: kind, WaitNs: int64(time.Hour), N: n, K: n + 1, Cancel: 1, InCB: in, C: cc, Items: 3, CtxFar: true})
+					cases = append(cases, &WaitCase{Family: "interrupt", Kind: kind, WaitNs: int64(time.Hour), N: n, K: n + 1, Cancel: 1, InCB: in, C: cc, Items: 3, CtxCause: true})
 				}
 			}
 		}
